@@ -160,6 +160,9 @@ def make_runner(env, cfg=None):
                 self.params.set_unpack_parameter(name)
             self.delete_partial_results_bool = bool(
                 cfg.get("delete_partial", False))
+            if cfg.get("partial_folder", "default") is None:
+                # documented: None = partial results next to the final file
+                self.partial_results_folder = None
             if cfg.get("filename") is not None:
                 self.set_results_filename(cfg["filename"] +
                                           cfg.get("ext", ""))
